@@ -1,245 +1,16 @@
+/-
+  C02 — the checked simplifier model refines the plain one.
+
+  `simp` (Model/Simplify.lean) is the model of `simplify_chained_calls` that the correspondence run compares with the
+  implementation; `simpCk` (Model/SimplifyCk.lean) is the same text with explicit side conditions, and the soundness
+  theorem (Props/C02Main.lean) is about `simpCk`.  This file closes the gap between the two: whenever the checked model
+  returns a result, the plain model returns the same result (`simpCk_refines_simp`, for every fuel, stack, counter and
+  expression).  So for every query the checked model accepts, the soundness theorem is a statement about the output of
+  the model that is tied to the code (`simplify_sound_of_checked`).
+-/
 import Fadl.Model.SimplifyCk
+import Fadl.Props.C02Main
 namespace Fadl
-
-mutual
-def simpF : Nat → SStack → Nat → Expr → Except Err (Expr × Nat)
-  | 0, _, _, _ => .error .fuel
-  | fuel + 1, st, c, e =>
-    match e with
-    | .name x => .ok ((stackLookup x st).getD (.name x), c)
-    | .const k => .ok (.const k, c)
-    | .lam ps b => do
-      let (ps', b', c1) := makeArgsUnique ps b c
-      let (b'', c2) ← simpF fuel st c1 b'
-      pure (.lam ps' b'', c2)
-    | .attr v a =>
-      match firstArg? v with
-      | some (some first) =>
-        let x := argName c
-        let select := makeSelect first (.lam [x] (.attr (.name x) a))
-        simpF fuel st (c + 1) (fcall "First" [select])
-      | some Option.none => .error (.internal "IndexError")
-      | Option.none => do
-        let (v', c1) ← simpF fuel st c v
-        match v' with
-        | .dict ks vs =>
-          match dictLookup ks vs (.str a) with
-          | some r => pure (r, c1)
-          | Option.none => pure (.attr v' a, c1)
-        | _ =>
-          match firstArg? v' with
-          | some (some first) =>
-            let x := argName c1
-            let select := makeSelect first (.lam [x] (.attr (.name x) a))
-            simpF fuel st (c1 + 1) (fcall "First" [select])
-          | some Option.none => .error (.internal "IndexError")
-          | Option.none => pure (.attr v' a, c1)
-    | .sub v s => do
-      let (v', c1) ← simpF fuel st c v
-      let (s', c2) ← simpF fuel st c1 s
-      let generic : Except Err (Expr × Nat) :=
-        match firstArg? v' with
-        | some (some first) =>
-          let x := argName c2
-          let select := makeSelect first (.lam [x] (.sub (.name x) s'))
-          simpF fuel st (c2 + 1) (fcall "First" [select])
-        | some Option.none => .error (.internal "IndexError")
-        | Option.none => .ok (.sub v' s', c2)
-      match s' with
-      | .const (.int n) =>
-        (match v' with
-         | .tuple es =>
-           if n ≥ 0 then
-             (match es[n.toNat]? with
-              | some el => pure (el, c2)
-              | Option.none => .error .indexError)
-           else generic
-         | .list es =>
-           if n ≥ 0 then
-             (match es[n.toNat]? with
-              | some el => pure (el, c2)
-              | Option.none => .error .indexError)
-           else generic
-         | .dict ks vs =>
-           (match dictLookup ks vs (.int n) with
-            | some r => pure (r, c2)
-            | Option.none => pure (.sub v' s', c2))
-         | _ => generic)
-      | .const (.str k) =>
-        (match v' with
-         | .dict ks vs =>
-           (match dictLookup ks vs (.str k) with
-            | some r => pure (r, c2)
-            | Option.none => pure (.sub v' s', c2))
-         | _ => generic)
-      | _ => generic
-    | .tuple es => do let (es', c1) ← simpLF fuel st c es; pure (.tuple es', c1)
-    | .list es => do let (es', c1) ← simpLF fuel st c es; pure (.list es', c1)
-    | .dict ks vs => do
-      let (ks', c1) ← simpLF fuel st c ks
-      let (vs', c2) ← simpLF fuel st c1 vs
-      pure (.dict ks' vs', c2)
-    | .op k args => do let (as', c1) ← simpLF fuel st c args; pure (.op k as', c1)
-    | .comp kind el t i ifs a => do
-      let (el', c1) ← simpF fuel st c el
-      let (t', c2) ← simpF fuel st c1 t
-      let (i', c3) ← simpF fuel st c2 i
-      let (ifs', c4) ← simpLF fuel st c3 ifs
-      pure (.comp kind el' t' i' ifs' a, c4)
-    | .call f args kwn kwv =>
-      let generic (head : Except Err (Expr × Nat)) : Except Err (Expr × Nat) := do
-        let (f', c1) ← head
-        let (as', c2) ← simpLF fuel st c1 args
-        let (ks', c3) ← simpLF fuel st c2 kwv
-        pure (.call f' as' kwn ks', c3)
-      match f with
-      | .lam ps body =>
-        let npos := args.length
-        if !distinctS ps || npos > ps.length || !distinctS kwn || !sameSet kwn (ps.drop npos) then generic (simpF fuel st c f)
-        else do
-          let (ps', body', c1) := makeArgsUnique ps body c
-          let (as', c2) ← simpLF fuel st c1 args
-          let (ks', c3) ← simpLF fuel st c2 kwv
-          let ren := ps.zip ps'
-          let frame : SFrame :=
-            ((ps'.take npos).zip as') ++ (kwn.zip ks').map (fun p => ((renGet p.1 ren).getD p.1, p.2))
-          simpF fuel (frame :: st) c3 body'
-      | .attr v m =>
-        match firstArg? v with
-        | some (some seq) =>
-          let x := argName c
-          let call := Expr.call (.attr (.name x) m) args kwn kwv
-          let select := makeSelect seq (.lam [x] call)
-          simpF fuel st (c + 1) (fcall "First" [select])
-        | some Option.none => .error (.internal "IndexError")
-        | Option.none =>
-          -- a method head: visited as an attribute (dictionary fields are resolved), never taken out of a First
-          let head : Except Err (Expr × Nat) := do
-            let (v', c1) ← simpF fuel st c v
-            match v' with
-            | .dict ks vs =>
-              match dictLookup ks vs (.str m) with
-              | some r => pure (r, c1)
-              | Option.none => pure (.attr v' m, c1)
-            | _ => pure (.attr v' m, c1)
-          generic head
-      | .name n =>
-        if n = "Select" then callSelectF fuel st c args kwn kwv
-        else if n = "SelectMany" then callSelectManyF fuel st c args kwn kwv
-        else if n = "Where" then callWhereF fuel st c args kwn kwv
-        else generic (simpF fuel st c f)
-      | _ => generic (simpF fuel st c f)
-def simpLF : Nat → SStack → Nat → List Expr → Except Err (List Expr × Nat)
-  | 0, _, _, _ => .error .fuel
-  | _ + 1, _, c, [] => .ok ([], c)
-  | fuel + 1, st, c, e :: es => do
-    let (e', c1) ← simpF fuel st c e
-    let (es', c2) ← simpLF fuel st c1 es
-    pure (e' :: es', c2)
-def callSelectF : Nat → SStack → Nat → List Expr → List String → List Expr → Except Err (Expr × Nat)
-  | 0, _, _, _, _, _ => .error .fuel
-  | fuel + 1, st, c, args, _, _ =>
-    match args with
-    | source :: transform :: _ =>
-      if !isLam transform then .error (.internal "AssertionError") else do
-        let (parent, c1) ← simpF fuel st c source
-        let dflt : Except Err (Expr × Nat) := do
-          let (sel, c2) ← simpF fuel st c1 transform
-          pure (makeSelect parent sel, c2)
-        match opCall? parent with
-        | some (n, pargs) =>
-          if n = "Select" then
-            (match pargs with
-             | src :: f :: _ =>
-               if !isLam f then .error (.internal "AssertionError") else do
-                 let (conv, c2) ← convolute transform f c1
-                 let (sel, c3) ← simpF fuel st c2 conv
-                 pure (makeSelect src sel, c3)
-             | _ => .error (.internal "IndexError"))
-          else if n = "SelectMany" then
-            (match pargs with
-             | src :: f :: _ =>
-               (match f with
-                | .lam fps fb =>
-                  simpF fuel st c1 (fcall "SelectMany" [src, .lam fps (makeSelect fb transform)])
-                | _ => .error (.internal "AssertionError"))
-             | _ => .error (.internal "IndexError"))
-          else dflt
-        | Option.none => dflt
-    | _ => .error (.internal "IndexError")
-def callSelectManyF : Nat → SStack → Nat → List Expr → List String → List Expr → Except Err (Expr × Nat)
-  | 0, _, _, _, _, _ => .error .fuel
-  | fuel + 1, st, c, args, _, _ =>
-    match args with
-    | source :: selection :: _ =>
-      if !isLam selection then .error (.internal "AssertionError") else do
-        let (parent, c1) ← simpF fuel st c source
-        let dflt : Except Err (Expr × Nat) := do
-          let (sel, c2) ← simpF fuel st c1 selection
-          pure (fcall "SelectMany" [parent, sel], c2)
-        match opCall? parent with
-        | some (n, pargs) =>
-          if n = "SelectMany" then
-            (match pargs with
-             | [seq, f] =>
-               (match f with
-                | .lam (p :: _) fb =>
-                  simpF fuel st c1 (fcall "SelectMany" [seq, .lam [p] (fcall "SelectMany" [fb, selection])])
-                | .lam [] _ => .error (.internal "IndexError")
-                | _ => .error (.internal "AssertionError"))
-             | _ => .error (.internal "AssertionError"))
-          else if n = "Select" then
-            (match pargs with
-             | [seq, f] =>
-               if !isLam f then .error (.internal "AssertionError") else do
-                 let (conv, c2) ← convolute selection f c1
-                 let (sel, c3) ← simpF fuel st c2 conv
-                 pure (fcall "SelectMany" [seq, sel], c3)
-             | _ => .error (.internal "AssertionError"))
-          else dflt
-        | Option.none => dflt
-    | _ => .error (.internal "IndexError")
-def callWhereF : Nat → SStack → Nat → List Expr → List String → List Expr → Except Err (Expr × Nat)
-  | 0, _, _, _, _, _ => .error .fuel
-  | fuel + 1, st, c, args, _, _ =>
-    match args with
-    | source :: filter :: _ =>
-      if !isLam filter then .error (.internal "AssertionError") else do
-        let (parent, c1) ← simpF fuel st c source
-        let dflt : Except Err (Expr × Nat) := do
-          let (f', c2) ← simpF fuel st c1 filter
-          if lambdaIsTrue f' then pure (parent, c2) else pure (fcall "Where" [parent, f'], c2)
-        match opCall? parent with
-        | some (n, pargs) =>
-          if n = "Where" then
-            (match pargs with
-             | src :: f :: _ =>
-               if !isLam f then .error (.internal "AssertionError") else
-                 let x := argName c1
-                 let conv := Expr.lam [x] (.op .boolAnd [.call f [.name x] [] [], .call filter [.name x] [] []])
-                 simpF fuel st (c1 + 1) (fcall "Where" [src, conv])
-             | _ => .error (.internal "IndexError"))
-          else if n = "Select" then
-            (match pargs with
-             | src :: f :: _ =>
-               if !isLam f then .error (.internal "AssertionError") else do
-                 let (conv, c2) ← convolute filter f c1
-                 let (w, c3) ← simpF fuel st c2 conv
-                 simpF fuel st c3 (makeSelect (fcall "Where" [src, w]) f)
-             | _ => .error (.internal "IndexError"))
-          else if n = "SelectMany" then
-            (match pargs with
-             | seq :: f :: _ =>
-               (match f with
-                | .lam fps fb =>
-                  simpF fuel st c1 (fcall "SelectMany" [seq, .lam fps (fcall "Where" [fb, filter])])
-                | _ => .error (.internal "AssertionError"))
-             | _ => .error (.internal "IndexError"))
-          else dflt
-        | Option.none => dflt
-    | _ => .error (.internal "IndexError")
-end
-
 
 /-! ## the checked model refines the plain one -/
 set_option linter.unusedSimpArgs false
@@ -391,12 +162,12 @@ theorem subOuter_ref (v' s' : Expr) (c2 : Nat) (gen gen' : Except Err (Expr × N
     · exact hg
   · exact hg
 
-theorem simpCk_ref : ∀ fuel : Nat,
-    (∀ st c e, Ref (simpCk fuel st c e) (simpF fuel st c e)) ∧
-    (∀ st c es, Ref (simpLCk fuel st c es) (simpLF fuel st c es)) ∧
-    (∀ st c args kwn kwv, Ref (callSelectCk fuel st c args kwn kwv) (callSelectF fuel st c args kwn kwv)) ∧
-    (∀ st c args kwn kwv, Ref (callSelectManyCk fuel st c args kwn kwv) (callSelectManyF fuel st c args kwn kwv)) ∧
-    (∀ st c args kwn kwv, Ref (callWhereCk fuel st c args kwn kwv) (callWhereF fuel st c args kwn kwv)) := by
+theorem simpCk_refines_simp : ∀ fuel : Nat,
+    (∀ st c e, Ref (simpCk fuel st c e) (simp fuel st c e)) ∧
+    (∀ st c es, Ref (simpLCk fuel st c es) (simpL fuel st c es)) ∧
+    (∀ st c args kwn kwv, Ref (callSelectCk fuel st c args kwn kwv) (callSelect fuel st c args kwn kwv)) ∧
+    (∀ st c args kwn kwv, Ref (callSelectManyCk fuel st c args kwn kwv) (callSelectMany fuel st c args kwn kwv)) ∧
+    (∀ st c args kwn kwv, Ref (callWhereCk fuel st c args kwn kwv) (callWhere fuel st c args kwn kwv)) := by
   intro fuel
   induction fuel with
   | zero =>
@@ -407,21 +178,21 @@ theorem simpCk_ref : ∀ fuel : Nat,
     refine ⟨?_, ?_, ?_, ?_, ?_⟩
     · intro st c e
       cases e with
-      | name x => simp only [simpCk, simpF]; exact Ref.rfl' _
-      | const k => simp only [simpCk, simpF]; exact Ref.rfl' _
+      | name x => simp only [simpCk, simp]; exact Ref.rfl' _
+      | const k => simp only [simpCk, simp]; exact Ref.rfl' _
       | lam ps b =>
-        simp only [simpCk, simpF]
+        simp only [simpCk, simp]
         refine Ref.bind_ok (makeArgsUniqueCk_ref ps b c st) ?_
         exact Ref.bind (ihS _ _ _) (fun x => Ref.rfl' _)
-      | tuple es => simp only [simpCk, simpF]; exact Ref.bind (ihL _ _ _) (fun x => Ref.rfl' _)
-      | list es => simp only [simpCk, simpF]; exact Ref.bind (ihL _ _ _) (fun x => Ref.rfl' _)
+      | tuple es => simp only [simpCk, simp]; exact Ref.bind (ihL _ _ _) (fun x => Ref.rfl' _)
+      | list es => simp only [simpCk, simp]; exact Ref.bind (ihL _ _ _) (fun x => Ref.rfl' _)
       | dict ks vs =>
-        simp only [simpCk, simpF]
+        simp only [simpCk, simp]
         exact Ref.bind (ihL _ _ _) (fun x => Ref.bind (ihL _ _ _) (fun y => Ref.rfl' _))
-      | op k args => simp only [simpCk, simpF]; exact Ref.bind (ihL _ _ _) (fun x => Ref.rfl' _)
+      | op k args => simp only [simpCk, simp]; exact Ref.bind (ihL _ _ _) (fun x => Ref.rfl' _)
       | comp kind el t i ifs a => simp only [simpCk]; exact Ref.err _ _
       | attr v a =>
-        simp only [simpCk, simpF]
+        simp only [simpCk, simp]
         cases firstArg? v with
         | some o =>
           cases o with
@@ -442,7 +213,7 @@ theorem simpCk_ref : ∀ fuel : Nat,
                | Option.none => pure (.attr v' a, c1))
               (match firstArg? v' with
                | some (some first) =>
-                 simpF fuel st (c1 + 1) (fcall "First" [makeSelect first (.lam [argName c1] (.attr (.name (argName c1)) a))])
+                 simp fuel st (c1 + 1) (fcall "First" [makeSelect first (.lam [argName c1] (.attr (.name (argName c1)) a))])
                | some Option.none => .error (.internal "IndexError")
                | Option.none => pure (.attr v' a, c1)) := by
             cases firstArg? v' with
@@ -453,7 +224,7 @@ theorem simpCk_ref : ∀ fuel : Nat,
             | none => exact Ref.rfl' _
           cases v' <;> first | exact hrest | exact Ref.rfl' _
       | sub v s =>
-        simp only [simpCk, simpF]
+        simp only [simpCk, simp]
         refine Ref.bind (ihS _ _ _) (fun x => ?_)
         obtain ⟨v', c1⟩ := x
         simp only []
@@ -478,22 +249,22 @@ theorem simpCk_ref : ∀ fuel : Nat,
               else Except.error (sideErr "a substituted name in callee position"))
             (do
               let __x ← head'
-              let __x_1 ← simpLF fuel st __x.snd args
-              let __x_2 ← simpLF fuel st __x_1.snd kwv
+              let __x_1 ← simpL fuel st __x.snd args
+              let __x_2 ← simpL fuel st __x_1.snd kwv
               pure (Expr.call __x.fst __x_1.fst kwn __x_2.fst, __x_2.snd)) := by
           intro head head' P _ hh
           refine Ref.bind hh (fun x => Ref.bind (ihL _ _ _) (fun y => Ref.bind (ihL _ _ _) (fun z => ?_)))
           exact Ref.pguard (Ref.rfl' _)
         cases f with
         | lam ps body =>
-          simp only [simpCk, simpF]
+          simp only [simpCk, simp]
           split
           · exact hgen _ _ _ (ihS _ _ _)
           · refine Ref.bind_ok (makeArgsUniqueCk_ref ps body c st) ?_
             refine Ref.bind (ihL _ _ _) (fun y => Ref.bind (ihL _ _ _) (fun z => ?_))
             exact Ref.guard (ihS _ _ _)
         | attr v m =>
-          simp only [simpCk, simpF]
+          simp only [simpCk, simp]
           cases firstArg? v with
           | some o =>
             cases o with
@@ -504,7 +275,7 @@ theorem simpCk_ref : ∀ fuel : Nat,
             refine hgen _ _ _ ?_
             refine Ref.bind (ihS _ _ _) (fun x => Ref.rfl' _)
         | name n =>
-          simp only [simpCk, simpF]
+          simp only [simpCk, simp]
           split
           · exact ihSel _ _ _ _ _
           · split
@@ -512,27 +283,26 @@ theorem simpCk_ref : ∀ fuel : Nat,
             · split
               · exact ihWhere _ _ _ _ _
               · exact hgen _ _ _ (ihS _ _ _)
-        | const k => simp only [simpCk, simpF]; exact hgen _ _ _ (ihS _ _ _)
-        | sub v s => simp only [simpCk, simpF]; exact hgen _ _ _ (ihS _ _ _)
-        | tuple es => simp only [simpCk, simpF]; exact hgen _ _ _ (ihS _ _ _)
-        | list es => simp only [simpCk, simpF]; exact hgen _ _ _ (ihS _ _ _)
-        | dict ks vs => simp only [simpCk, simpF]; exact hgen _ _ _ (ihS _ _ _)
-        | op k es => simp only [simpCk, simpF]; exact hgen _ _ _ (ihS _ _ _)
-        | comp kind el t i ifs a => simp only [simpCk, simpF]; exact hgen _ _ _ (ihS _ _ _)
-        | call f2 a2 k2 v2 => simp only [simpCk, simpF]; exact hgen _ _ _ (ihS _ _ _)
+        | const k => simp only [simpCk, simp]; exact hgen _ _ _ (ihS _ _ _)
+        | sub v s => simp only [simpCk, simp]; exact hgen _ _ _ (ihS _ _ _)
+        | tuple es => simp only [simpCk, simp]; exact hgen _ _ _ (ihS _ _ _)
+        | list es => simp only [simpCk, simp]; exact hgen _ _ _ (ihS _ _ _)
+        | dict ks vs => simp only [simpCk, simp]; exact hgen _ _ _ (ihS _ _ _)
+        | op k es => simp only [simpCk, simp]; exact hgen _ _ _ (ihS _ _ _)
+        | comp kind el t i ifs a => simp only [simpCk, simp]; exact hgen _ _ _ (ihS _ _ _)
+        | call f2 a2 k2 v2 => simp only [simpCk, simp]; exact hgen _ _ _ (ihS _ _ _)
     · intro st c es
       cases es with
-      | nil => simp only [simpLCk, simpLF]; exact Ref.rfl' _
+      | nil => simp only [simpLCk, simpL]; exact Ref.rfl' _
       | cons e es =>
-        simp only [simpLCk, simpLF]
+        simp only [simpLCk, simpL]
         exact Ref.bind (ihS _ _ _) (fun x => Ref.bind (ihL _ _ _) (fun y => Ref.rfl' _))
     · -- callSelect
       intro st c args kwn kwv
-      simp only [callSelectCk, callSelectF]
       rcases args with _ | ⟨source, _ | ⟨transform, rest⟩⟩
-      · exact Ref.rfl' _
-      · exact Ref.rfl' _
-      · simp only []
+      · simp only [callSelectCk, callSelect]; exact Ref.rfl' _
+      · simp only [callSelectCk, callSelect]; exact Ref.rfl' _
+      · simp only [callSelectCk, callSelect]
         split
         · exact Ref.rfl' _
         · refine Ref.bind (ihS _ _ _) (fun x => ?_)
@@ -540,7 +310,7 @@ theorem simpCk_ref : ∀ fuel : Nat,
           simp only []
           refine Ref.nguard ?_
           have hd : Ref (do let (sel, c2) ← simpCk fuel st c1 transform; pure (makeSelect parent sel, c2))
-              (do let (sel, c2) ← simpF fuel st c1 transform; pure (makeSelect parent sel, c2)) :=
+              (do let (sel, c2) ← simp fuel st c1 transform; pure (makeSelect parent sel, c2)) :=
             Ref.bind (ihS _ _ _) (fun y => Ref.rfl' _)
           cases opCall? parent with
           | none => exact hd
@@ -564,11 +334,10 @@ theorem simpCk_ref : ∀ fuel : Nat,
               · exact hd
     · -- callSelectMany
       intro st c args kwn kwv
-      simp only [callSelectManyCk, callSelectManyF]
       rcases args with _ | ⟨source, _ | ⟨selection, rest⟩⟩
-      · exact Ref.rfl' _
-      · exact Ref.rfl' _
-      · simp only []
+      · simp only [callSelectManyCk, callSelectMany]; exact Ref.rfl' _
+      · simp only [callSelectManyCk, callSelectMany]; exact Ref.rfl' _
+      · simp only [callSelectManyCk, callSelectMany]
         split
         · exact Ref.rfl' _
         · refine Ref.bind (ihS _ _ _) (fun x => ?_)
@@ -576,7 +345,7 @@ theorem simpCk_ref : ∀ fuel : Nat,
           simp only []
           refine Ref.nguard ?_
           have hd : Ref (do let (sel, c2) ← simpCk fuel st c1 selection; pure (fcall "SelectMany" [parent, sel], c2))
-              (do let (sel, c2) ← simpF fuel st c1 selection; pure (fcall "SelectMany" [parent, sel], c2)) :=
+              (do let (sel, c2) ← simp fuel st c1 selection; pure (fcall "SelectMany" [parent, sel], c2)) :=
             Ref.bind (ihS _ _ _) (fun y => Ref.rfl' _)
           cases opCall? parent with
           | none => exact hd
@@ -607,11 +376,10 @@ theorem simpCk_ref : ∀ fuel : Nat,
               · exact hd
     · -- callWhere
       intro st c args kwn kwv
-      simp only [callWhereCk, callWhereF]
       rcases args with _ | ⟨source, _ | ⟨filter, rest⟩⟩
-      · exact Ref.rfl' _
-      · exact Ref.rfl' _
-      · simp only []
+      · simp only [callWhereCk, callWhere]; exact Ref.rfl' _
+      · simp only [callWhereCk, callWhere]; exact Ref.rfl' _
+      · simp only [callWhereCk, callWhere]
         split
         · exact Ref.rfl' _
         · refine Ref.bind (ihS _ _ _) (fun x => ?_)
@@ -622,7 +390,7 @@ theorem simpCk_ref : ∀ fuel : Nat,
                 let (f', c2) ← simpCk fuel st c1 filter
                 if lambdaIsTrue f' then pure (parent, c2) else pure (fcall "Where" [parent, f'], c2))
               (do
-                let (f', c2) ← simpF fuel st c1 filter
+                let (f', c2) ← simp fuel st c1 filter
                 if lambdaIsTrue f' then pure (parent, c2) else pure (fcall "Where" [parent, f'], c2)) :=
             Ref.bind (ihS _ _ _) (fun y => Ref.rfl' _)
           cases opCall? parent with
@@ -654,5 +422,20 @@ theorem simpCk_ref : ∀ fuel : Nat,
                   · simp only []
                     cases f <;> first | exact Ref.rfl' _ | exact Ref.guard (ihS _ _ _)
                 · exact hd
+
+
+/-- whenever the checked model returns a result, the plain model returns the same result -/
+theorem simplifyCk_refines_simplify (fuel c : Nat) (e e' : Expr) (c' : Nat)
+    (h : simplifyCk fuel c e = .ok (e', c')) : simplify fuel c e = .ok (e', c') :=
+  (simpCk_refines_simp fuel).1 [[]] c e (e', c') h
+
+/-- **C02 about the model tied to the code.** For every query the checked model accepts: the plain model
+    `simplify` returns that same query `e'`, and `e'` evaluates (deferred execution, every world that is well behaved,
+    every environment) to the value of the original whenever that value contains no deferred failure. -/
+theorem simplify_sound_of_checked {w : World} (hw : WorldOK w) (fuel c : Nat) (e e' : Expr) (c' : Nat)
+    (h : simplifyCk fuel c e = .ok (e', c')) :
+    simplify fuel c e = .ok (e', c') ∧
+    ∀ (env : Env), EnvLe env env → ∀ v : Val, evLz w env e = .ok v → v.clean = true → evLz w env e' = .ok v :=
+  ⟨simplifyCk_refines_simplify fuel c e e' c' h, fun env henv v hv hc => simplifyCk_preserves hw fuel c e e' c' h env henv v hv hc⟩
 
 end Fadl
